@@ -450,6 +450,10 @@ func runIdle(in []string) string {
 	modbus.VerifSetYield(nil)
 	k := atoi(in[0])
 	timeout := time.Duration(atoi(in[1])) * time.Millisecond
+	mode := ""
+	if len(in) > 2 {
+		mode = in[2]
+	}
 	h := &countHandler{}
 	srv, err := modbus.NewServer(&modbus.ServerConfiguration{URL: "tcp://127.0.0.1:0", MaxClients: uint(k),
 		Timeout: timeout, Logger: quiet}, h)
@@ -468,12 +472,23 @@ func runIdle(in []string) string {
 		if err != nil {
 			return "harness-error:dial"
 		}
+		// the deadline of a connection that never completes a request is the one
+		// armed at its admission (after this instant)
+		last := time.Now()
 		// stagger the last activity of the connections
 		time.Sleep(time.Duration(i) * timeout / time.Duration(4*k))
-		if probe(c) != "resp" {
-			return "harness-error:probe"
+		switch mode {
+		case "silent": // never sends anything: the deadline armed at admission must end the session
+		case "header": // stalls inside the MBAP header of its first frame
+			c.Write([]byte{0, 1, 0})
+		case "body": // stalls inside the body of its first frame
+			c.Write([]byte{0, 1, 0, 0, 0, 6, 1, 3, 0})
+		default:
+			if probe(c) != "resp" {
+				return "harness-error:probe"
+			}
+			last = time.Now() // the server re-arms its deadline after this instant
 		}
-		last := time.Now() // the server re-arms its deadline after this instant
 		wg.Add(1)
 		go func(i int, c net.Conn, last time.Time) {
 			defer wg.Done()
@@ -633,6 +648,10 @@ func scnIdle(o *Out, r *Rng, thorough bool) {
 	o.RunMany("blockedwrite", []string{"1 150", "2 120", "3 100"})
 	o.Run("idle", "2 200")
 	o.Run("idle", "3 350")
+	// connections that never complete a first request must be timed out as well
+	o.Run("idle", "2 200 silent")
+	o.Run("idle", "2 220 header")
+	o.Run("idle", "1 180 body")
 	if thorough {
 		for i := 0; i < 10; i++ {
 			o.Run("idle", itoa(1+r.Intn(4))+" "+itoa(150+r.Intn(400)))
